@@ -84,6 +84,23 @@ fn lexicase_replay() {
         assert!(differ == 0, "lexicase keeps state between calls: {differ} of 400 seeded histories differ");
         return;
     }
+    let law: Vec<f64> = std::env::var("LEX_LAW").unwrap_or_default().split(',').filter(|s| !s.is_empty()).map(|x| x.parse().unwrap()).collect();
+    if law.len() == r.len() && !reverse {
+        // the law of the winner: frequencies over 60000 seeded runs against the prescribed probabilities (tolerance 0.012)
+        let pop: Vec<EcIndividual<usize, TestResults<Score<i64>>>> = r.iter().enumerate().map(|(i, row)| EcIndividual::new(i, row.iter().copied().into())).collect();
+        let runs = 60000u64;
+        let mut hist = vec![0u64; r.len()];
+        for seed in 0..runs {
+            let mut rng = StdRng::seed_from_u64(seed);
+            hist[*Lexicase::new(m).select(&pop, &mut rng).unwrap().genome()] += 1;
+        }
+        let freq: Vec<f64> = hist.iter().map(|h| *h as f64 / runs as f64).collect();
+        println!("selection frequencies {freq:?}, prescribed {law:?}");
+        for i in 0..r.len() {
+            assert!((freq[i] - law[i]).abs() <= 0.012, "individual {i}: selected with frequency {:.4}, prescribed {:.4}", freq[i], law[i]);
+        }
+        return;
+    }
     let mut seen: Vec<usize> = Vec::new();
     for seed in 0..3000u64 {
         let mut rng = StdRng::seed_from_u64(seed);
